@@ -265,13 +265,19 @@ class _SessionRegistry:
             entry = self._entries.get(session_id)
             if entry is None:
                 return None
-            if entry.expires_at < now:
-                del self._entries[session_id]
-                self._close_state_suppressed(entry.state)
-                return None
-            if entry.principal_key != principal_key:
-                return None
-        return entry
+            if entry.expires_at >= now:
+                return entry if entry.principal_key == principal_key else None
+            del self._entries[session_id]
+        # Expired: run the close hook under the per-session lock so it waits for
+        # an in-flight dispatch (which holds that lock) instead of racing it.
+        with entry.lock:
+            self._close_state_suppressed(entry.state)
+        return None
+
+    def is_live(self, session_id: bytes, entry: _SessionEntry) -> bool:
+        """Whether *entry* is still the registered entry for *session_id*."""
+        with self._lock:
+            return self._entries.get(session_id) is entry
 
     def close(self, session_id: bytes) -> bool:
         """Remove a session and invoke ``state.close()``. Returns ``True`` on hit."""
@@ -290,7 +296,8 @@ class _SessionRegistry:
             expired_sids = [sid for sid, e in self._entries.items() if e.expires_at < now]
             expired = [self._entries.pop(sid) for sid in expired_sids]
         for entry in expired:
-            self._close_state_suppressed(entry.state)
+            with entry.lock:
+                self._close_state_suppressed(entry.state)
         return len(expired)
 
     def shutdown(self) -> None:
@@ -304,7 +311,8 @@ class _SessionRegistry:
             entries = list(self._entries.values())
             self._entries.clear()
         for entry in entries:
-            self._close_state_suppressed(entry.state)
+            with entry.lock:
+                self._close_state_suppressed(entry.state)
 
     def __len__(self) -> int:
         with self._lock:
@@ -537,6 +545,16 @@ class _StickyMiddleware:
             # Released in process_response. Same-session concurrent calls
             # serialize here; different-session calls run in parallel.
             entry.lock.acquire()
+            if not self._registry.is_live(session_id, entry):
+                # Closed (DELETE / close_session / reaper) while we waited for the lock.
+                entry.lock.release()
+                _set_error_response(
+                    resp,
+                    SessionLostError("session not found, expired, or principal mismatch"),
+                    status_code=HTTPStatus.INTERNAL_SERVER_ERROR,
+                )
+                resp.complete = True
+                return
             req.context.sticky_entry = entry
             req.context.sticky_entry_lock_acquired = True
             session_id_hex = session_id.hex()
@@ -611,14 +629,15 @@ class _StickyMiddleware:
             session_id = bytes.fromhex(sc.session_id)
         except ValueError:
             return False
-        # Release the per-session RLock before removal so process_response's
-        # release doesn't double-unlock.
+        # Close while still holding the per-session RLock (a request queued on
+        # it must not dispatch against a state that is being closed), then
+        # release it here so process_response's release doesn't double-unlock.
+        hit = self._registry.close(session_id)
         entry = getattr(req.context, "sticky_entry", None)
         if entry is not None and getattr(req.context, "sticky_entry_lock_acquired", False):
             with contextlib.suppress(RuntimeError):
                 entry.lock.release()
             req.context.sticky_entry_lock_acquired = False
-        hit = self._registry.close(session_id)
         # Clear the contextvar so subsequent ctx.session reads return None.
         sc_token = getattr(req.context, "sticky_session_token", None)
         if sc_token is not None:
